@@ -58,8 +58,14 @@ pub fn compile_entry(
     }
 }
 
-pub fn run(_args: &[String]) {
+pub fn run(args: &[String]) {
+    // `ctr=<n>`: every line is compiled after ARGNAME_CTR.store(n) (C05: which option sets let generated
+    // names reach the output)
+    let ctr: Option<usize> = args.iter().find_map(|a| a.strip_prefix("ctr=").and_then(|v| v.parse().ok()));
     each_line(|l| {
+        if let Some(c) = ctr {
+            chialisp::compiler::gensym::ARGNAME_CTR.store(c, std::sync::atomic::Ordering::SeqCst);
+        }
         let parts: Vec<&str> = l.split_whitespace().collect();
         if parts.len() < 2 {
             return "bad-input".to_string();
